@@ -13,7 +13,10 @@ package transport
 // Junk is never authentic for a live session: it is random, or derived from valid messages of OTHER handshakes / of this
 // case's own honest traffic by truncation and header/length-field mutation, or produced by clients that are honest
 // protocol speakers but name arbitrary server names / aim at any certificate's KEM key (all of that happens before the
-// client is authenticated).
+// client is authenticated), or well-formed transport / control datagrams sealed under keys that need no secret (all-zero,
+// the session id, public wire bytes ...), or messages whose length field and real length were moved TOGETHER to a drawn
+// large / boundary value. A real-time stress unit (abandoned handshakes with a millisecond handshake timeout racing
+// session-typed datagrams, wedge proven from goroutine dumps) lives in zz_verif_c10s_test.go.
 
 import (
 	"bytes"
@@ -374,17 +377,20 @@ func c10Table(t *testing.T) []c10Tmpl {
 // case
 
 type c10Junk struct {
-	K    string `json:"k"`              // rand | tmpl | hdr | name | rawsni | hidreq
+	K    string `json:"k"`              // rand | tmpl | hdr | seal | name | rawsni | hidreq | rawauth | rawhid (the last two: Cut = length of the certificate-field plaintext (<0 natural), V / B1 = first / second length prefix (c10BlobFirst / c10BlobSecond), B2 = content, T = virtual host of rawhid)
 	Src  int    `json:"src,omitempty"`  // 0: the peer's own address (server target: the handshaking / first established client; client target: the server); n>0: third address n (5: a third address with source port 0 - replies to it fail in the socket)
 	T    int    `json:"t,omitempty"`    // tmpl: index into the table of valid messages; 100+i: the i-th most recent datagram of this case's honest traffic (0 = a held-back message); 300+m: its most recent datagram of message type m
-	F    string `json:"f,omitempty"`    // tmpl: mutated field: type | b1 | b2 | b3 | certlen | ctr ("" none)
-	V    int    `json:"v,omitempty"`    // value for F (type: -1 keeps; certlen: 0:0 1:1 2:0xffff 3:orig-1 4:orig+1; ctr: 0:zero 1:max 2:orig+1 3:random); hdr: type byte; name: index; hidreq: host; rawsni: block-size byte
+	F    string `json:"f,omitempty"`    // tmpl: mutated field: type | b1 | b2 | b3 | certlen | ctr | fit ("" none)
+	V    int    `json:"v,omitempty"`    // value for F (type: -1 keeps; certlen: 0:0 1:1 2:0xffff 3:orig-1 4:orig+1; ctr: 0:zero 1:max 2:orig+1 3:random; fit: 0: N is the value of the length field, 1: N is the length of the whole datagram, 2: N is added to the template's own field value); hdr / seal: type byte; name: index; hidreq: host; rawsni: block-size byte
+	N    int    `json:"n,omitempty"`    // fit: the 16-bit length field (bytes 2..3) is set to N, or to N minus the fixed part of the message (V=1), AND the datagram is resized so that its real length agrees with the field
+	D    int    `json:"d,omitempty"`    // fit: the real length differs from the length the field announces by D bytes
+	Ty   int    `json:"ty,omitempty"`   // fit: first byte (0 keeps the template's)
 	Sid  int    `json:"sid,omitempty"`  // tmpl/hdr: bytes 4..8: 0 keep, 1 unknown id, 2+k live session id k
 	Cut  int    `json:"cut,omitempty"`  // tmpl: truncate to Cut-1 bytes when Cut>0 (0: keep); rand/hdr: length / body length = Cut
 	Pad  int    `json:"pad,omitempty"`  // tmpl: bytes appended
 	Seed uint64 `json:"seed,omitempty"` // filler bytes
-	B1   int    `json:"b1,omitempty"`   // rawsni: type byte
-	B2   int    `json:"b2,omitempty"`   // rawsni: label-length byte
+	B1   int    `json:"b1,omitempty"`   // rawsni: type byte; seal: key class (see c10SealKeys)
+	B2   int    `json:"b2,omitempty"`   // rawsni: label-length byte; seal: counter 0: 0, 1: 1, 2: highest counter seen on the wire for that session id + 1, 3: random, 4: 2^64-1, 5: highest counter seen (a replayed counter)
 }
 
 type c10Case struct {
@@ -612,6 +618,122 @@ func (r *c10RT) sid(j c10Junk) (id [4]byte, live bool) {
 	return id, false
 }
 
+// fixedPart: the number of bytes of a message of d's type that its 16-bit length field (bytes 2..3) does not count,
+// taken from the valid message of that type in the table; the message's own length for types without a length field.
+func (r *c10RT) fixedPart(d []byte) int {
+	switch MessageType(d[0]) {
+	case MessageTypeServerAuth, MessageTypeClientAuth, MessageTypeClientRequestHidden, MessageTypeServerResponseHidden:
+		for _, tm := range r.table {
+			if tm.Data[0] == d[0] {
+				return len(tm.Data) - (int(tm.Data[2])<<8 | int(tm.Data[3]))
+			}
+		}
+	}
+	return len(d)
+}
+
+// c10FitClass names the size region of a resized datagram relative to the buffer sizes of package transport.
+func c10FitClass(total int) string {
+	switch {
+	case total > MaxTotalPacketSize:
+		return "above-MaxTotalPacketSize"
+	case total > 1<<15:
+		return "above-32K"
+	case total > 2100:
+		return "big"
+	}
+	return "small"
+}
+
+// c10FitBoundaries: lengths around every size constant a transport buffer or length computation is built from
+// (65507 is the largest payload a real UDP/IPv4 socket delivers, 65535 the size of the receive buffers).
+func c10FitBoundaries() []int {
+	var out []int
+	for _, b := range []int{0, 1 << 8, 1 << 14, 1 << 15, MaxPlaintextSize, MaxTotalPacketSize, 65507, 65535} {
+		for d := -1; d <= 1; d++ {
+			if v := b + d; v >= 0 && v <= 65535 {
+				out = append(out, v)
+			}
+		}
+	}
+	return out
+}
+
+var c10SealKeyNames = []string{"zero-key", "ff-key", "session-id-key", "counting-key", "protocol-name-key", "wire-bytes-key", "random-key"}
+
+// sealKey: keys an attacker can compute without any secret (and, as a control, a random one).
+func (r *c10RT) sealKey(j c10Junk, id SessionID) (key [KeyLen]byte, name string) {
+	k := ((j.B1 % len(c10SealKeyNames)) + len(c10SealKeyNames)) % len(c10SealKeyNames)
+	switch k {
+	case 0:
+	case 1:
+		for i := range key {
+			key[i] = 0xff
+		}
+	case 2:
+		for i := range key {
+			key[i] = id[i%len(id)]
+		}
+	case 3:
+		for i := range key {
+			key[i] = byte(i)
+		}
+	case 4:
+		copy(key[:], PostQuantumProtocolName)
+	case 5:
+		// public bytes of the most recent honest handshake datagram of this case (ephemeral keys travel in clear)
+		r.mu.Lock()
+		for i := len(r.live) - 1; i >= 0; i-- {
+			if d := r.live[i]; vIsHandshake(d) && len(d) >= 8+KeyLen {
+				copy(key[:], d[8:8+KeyLen])
+				break
+			}
+		}
+		r.mu.Unlock()
+	default:
+		copy(key[:], vlib.Fill(j.Seed^0x6e7, KeyLen))
+	}
+	return key, c10SealKeyNames[k]
+}
+
+// sealCounter: the counter of a sealed junk datagram (see c10Junk.B2).
+func (r *c10RT) sealCounter(j c10Junk, id SessionID) uint64 {
+	seen, any := uint64(0), false
+	r.mu.Lock()
+	for _, d := range r.live {
+		if len(d) >= AssociatedDataLen && !vIsHandshake(d) && bytes.Equal(d[4:8], id[:]) {
+			var c uint64
+			for _, b := range d[8:16] {
+				c = c<<8 | uint64(b)
+			}
+			if !any || c > seen {
+				seen, any = c, true
+			}
+		}
+	}
+	r.mu.Unlock()
+	switch ((j.B2 % 6) + 6) % 6 {
+	case 0:
+		return 0
+	case 1:
+		return 1
+	case 2:
+		if any {
+			return seen + 1
+		}
+		return 2
+	case 3:
+		var c uint64
+		for _, b := range vlib.Fill(j.Seed^0xc0c0, 8) {
+			c = c<<8 | uint64(b)
+		}
+		return c
+	case 4:
+		return ^uint64(0)
+	}
+	return seen
+}
+
 // build materialises a junk datagram; class names the shape (for labels / distinctness).
 func (r *c10RT) build(j c10Junk) (data []byte, class string, structured bool) {
 	switch j.K {
@@ -636,6 +758,23 @@ func (r *c10RT) build(j c10Junk) (data []byte, class string, structured bool) {
 		data = append([]byte{byte(j.V), 0, 0, 0}, id[:]...)
 		data = append(data, vlib.Fill(j.Seed, j.Cut)...)
 		return data, fmt.Sprintf("hdr:%s:%s", c10TypeName(data), map[bool]string{true: "live-id", false: "unknown-id"}[live]), true
+	case "seal":
+		// a well-formed transport / control datagram, sealed by the real sealing code under a key that anybody can
+		// compute (never under a session's keys): it must be rejected like any other unauthenticated datagram, whatever
+		// state the session it names is in (established, closed, allocated by a ClientAck and still without keys, unknown)
+		id, live := r.sid(j)
+		key, kname := r.sealKey(j, id)
+		payload := vlib.Fill(j.Seed^0x5ea1, j.Cut)
+		if byte(j.V) == byte(MessageTypeControl) && len(payload) == 1 && j.Seed%2 == 0 {
+			payload[0] = byte(ControlMessageClose)
+		}
+		tmp := &SessionState{sessionID: id, count: r.sealCounter(j, id)}
+		pkt, err := tmp.sealPacketLocked(MessageType(byte(j.V)), payload, &key)
+		if err != nil {
+			return nil, "seal:failed", false
+		}
+		tn := c10TypeName(pkt)
+		return pkt, fmt.Sprintf("seal:%s:%s:%s", tn, kname, map[bool]string{true: "live-id", false: "unknown-id"}[live]), true
 	case "tmpl":
 		var name string
 		T := j.T
@@ -686,6 +825,36 @@ func (r *c10RT) build(j c10Junk) (data []byte, class string, structured bool) {
 				o := int(data[2])<<8 | int(data[3])
 				nv := []int{0, 1, 0xffff, o - 1, o + 1}[((j.V%5)+5)%5]
 				data[2], data[3] = byte(nv>>8), byte(nv)
+			}
+		case "fit":
+			// the length field takes a drawn (large / boundary) value AND the datagram is resized accordingly, so that
+			// the reader's "is the datagram as long as its length field says" check passes and everything behind it
+			// (copies into buffers of another size, slices by the field) sees the large value
+			if j.Ty > 0 && len(data) > 0 {
+				data[0] = byte(j.Ty)
+			}
+			if len(data) >= 4 {
+				fixed := r.fixedPart(data)
+				n := j.N
+				switch j.V {
+				case 1:
+					n -= fixed
+				case 2:
+					n += int(data[2])<<8 | int(data[3])
+				}
+				n = max(0, min(n, 0xffff))
+				total := max(4, min(fixed+n+j.D, 65535))
+				data[2], data[3] = byte(n>>8), byte(n)
+				if total <= len(data) {
+					data = data[:total]
+				} else {
+					data = append(data, vlib.Fill(j.Seed^0xf17, total-len(data))...)
+				}
+				orig = len(data) // (the resize is part of this mutation, not a cut / pad)
+				mut = "fit=" + c10TypeName(data) + ":" + c10FitClass(total)
+				if j.D != 0 {
+					mut += ":off-by-some"
+				}
 			}
 		case "ctr":
 			if len(data) >= 16 {
@@ -787,8 +956,24 @@ func (r *c10RT) note(class string, structured bool) {
 				if strings.HasPrefix(m, "type=") {
 					m = "type"
 				}
+				if strings.HasPrefix(m, "fit=") {
+					r.label("fit:" + strings.TrimSuffix(strings.TrimPrefix(m, "fit="), ":off-by-some"))
+					m = "fit"
+				}
 				r.label("mut:" + m)
 			}
+		}
+	case "rawauth", "rawhid":
+		r.label("dg:" + p[0])
+		for _, m := range strings.Split(class, ":")[1:] {
+			r.label("blob:" + m)
+		}
+	case "seal":
+		if len(p) == 4 {
+			r.label("dg:seal:" + p[1] + ":" + p[3])
+			r.label("seal:" + p[2])
+		} else {
+			r.label("dg:" + class)
 		}
 	default:
 		r.label("dg:" + class)
@@ -802,7 +987,7 @@ func (r *c10RT) note(class string, structured bool) {
 // junkToServer handles one junk item aimed at the server.
 func (r *c10RT) junkToServer(j c10Junk, peer *net.UDPAddr, wait bool) {
 	switch j.K {
-	case "name", "rawsni", "hidreq":
+	case "name", "rawsni", "hidreq", "rawauth", "rawhid":
 		r.actor(j)
 		return
 	}
@@ -846,6 +1031,21 @@ func (r *c10RT) actor(j c10Junk) {
 		got := r.rawSNI(addr, j)
 		r.note("rawsni", true)
 		r.label("rawsni:" + got)
+	case "rawauth":
+		_, tag := c10CertBlob(j)
+		got := r.rawAuth(addr, j)
+		r.note("rawauth:"+tag, true)
+		r.label("rawauth:" + got)
+	case "rawhid":
+		host := ((j.T % 3) + 3) % 3
+		if r.hidLoopGuard() && host != r.firstListHost() {
+			r.excluded(c10SigHidLoop)
+			return
+		}
+		_, tag := c10CertBlob(j)
+		got := r.rawHid(addr, j, host)
+		r.note("rawhid:"+tag, true)
+		r.label("rawhid:" + got)
 	}
 }
 
@@ -915,6 +1115,237 @@ func (r *c10RT) rawSNI(addr *net.UDPAddr, j c10Junk) string {
 	n, _, _, _, err = sock.ReadMsgUDP(buf, nil)
 	if err != nil {
 		return "name-refused"
+	}
+	return "answered-with-" + c10TypeName(buf[:n])
+}
+
+// ---------------------------------------------------------------------------
+// peers that really run the unauthenticated part of the key exchange and therefore choose the PLAINTEXT of the
+// encrypted certificate-vector field (the tag over it is correct: the vectors are split, and the certificate parser
+// runs on them, before the peer is authenticated)
+
+var c10BlobFirst = []string{"keep", "fills-all", "one-past-room", "two-past-room", "three-past-room", "room-for-empty-second", "room-for-half-prefix", "zero", "ffff"}
+var c10BlobSecond = []string{"keep", "fills-all", "one-past-room", "two-past-room", "three-past-room", "zero", "ffff"}
+
+// c10CertBlob builds the plaintext of the certificate field: j.Cut bytes (<0: the natural length of the genuine
+// vectors) of genuine vectors / random bytes / random bytes in well-formed vectors (j.B2), then the first length prefix
+// set relative to the room that is left (j.V) and, where it still fits, the second one (j.B1).
+func c10CertBlob(j c10Junk) (blob []byte, tag string) {
+	w := vGetWorld()
+	leaf, err := w.Cli2Leaf.Marshal()
+	vMust(err)
+	inter, err := w.Inter.Marshal()
+	vMust(err)
+	genuine := make([]byte, 4+len(leaf)+len(inter))
+	n, _ := writeVector(genuine, leaf)
+	writeVector(genuine[n:], inter)
+	B := j.Cut
+	if B < 0 {
+		B = len(genuine)
+	}
+	B = min(B, 63000)
+	blob = make([]byte, B)
+	put := func(off, v int) {
+		v = max(0, min(v, 0xffff))
+		if off+2 <= B {
+			blob[off], blob[off+1] = byte(v>>8), byte(v)
+		}
+	}
+	content := ((j.B2 % 3) + 3) % 3
+	switch content {
+	case 0:
+		copy(blob, genuine)
+	case 1:
+		copy(blob, vlib.Fill(j.Seed^0xb10b, B))
+	default:
+		copy(blob, vlib.Fill(j.Seed^0xb10b, B))
+		if B >= 4 {
+			put(0, (B-4)/2)
+			put(2+(B-4)/2, B-4-(B-4)/2)
+		}
+	}
+	first := ((j.V % len(c10BlobFirst)) + len(c10BlobFirst)) % len(c10BlobFirst)
+	switch first {
+	case 1:
+		put(0, B-2)
+	case 2:
+		put(0, B-1)
+	case 3:
+		put(0, B)
+	case 4:
+		put(0, B+1)
+	case 5:
+		put(0, B-4)
+	case 6:
+		put(0, B-3)
+	case 7:
+		put(0, 0)
+	case 8:
+		put(0, 0xffff)
+	}
+	second := ((j.B1 % len(c10BlobSecond)) + len(c10BlobSecond)) % len(c10BlobSecond)
+	if B >= 2 {
+		off := 2 + (int(blob[0])<<8 | int(blob[1]))
+		rem := B - off
+		switch second {
+		case 1:
+			put(off, rem-2)
+		case 2:
+			put(off, rem-1)
+		case 3:
+			put(off, rem)
+		case 4:
+			put(off, rem+1)
+		case 5:
+			put(off, 0)
+		case 6:
+			put(off, 0xffff)
+		}
+	}
+	size := "natural-length"
+	switch {
+	case j.Cut >= 0 && B <= 16:
+		size = "0-16"
+	case j.Cut >= 0 && B <= 700:
+		size = "17-700"
+	case j.Cut >= 0:
+		size = "big"
+	}
+	return blob, fmt.Sprintf("%s:first=%s:second=%s:%s", []string{"genuine", "random", "random-in-vectors"}[content], c10BlobFirst[first], c10BlobSecond[second], size)
+}
+
+func c10NewHS() (*HandshakeState, bool) {
+	hs := new(HandshakeState)
+	hs.duplex.InitializeEmpty()
+	hs.dh = new(dhState)
+	hs.dh.ephemeral.Generate()
+	hs.kem = new(kemState)
+	eph, err := keys.GenerateKEMKeyPair(rand.Reader)
+	if err != nil {
+		return nil, false
+	}
+	hs.kem.ephemeral = *eph
+	return hs, true
+}
+
+// rawAuth speaks the discoverable handshake honestly up to the ServerAuth and then sends a ClientAuth whose certificate
+// field holds the blob (correct tag; the final MAC is the honest one of client-two's key).
+func (r *c10RT) rawAuth(addr *net.UDPAddr, j c10Junk) string {
+	w := vGetWorld()
+	sock := r.env.Net.Dial(addr, vSrvAddr)
+	r.socks = append(r.socks, sock)
+	hs, ok := c10NewHS()
+	if !ok {
+		return "keygen-failed"
+	}
+	hs.dh.static = w.Cli2Key
+	hs.certVerify = &VerifyConfig{Store: w.store(), CurrentTime: w.Now, Name: certs.RawStringName(c10Hosts()[r.hostFor(0)].Name)}
+	hs.duplex.Absorb([]byte(PostQuantumProtocolName))
+	buf := make([]byte, 65535)
+	n, err := writePQClientHello(hs, buf)
+	if err != nil {
+		return "hello-failed"
+	}
+	sock.WriteMsgUDP(buf[:n], nil, vSrvAddr)
+	sock.SetReadDeadline(time.Now().Add(time.Second))
+	n, _, _, _, err = sock.ReadMsgUDP(buf, nil)
+	if err != nil {
+		return "no-server-hello"
+	}
+	if _, err := readPQServerHello(hs, buf[:n]); err != nil {
+		return "bad-server-hello"
+	}
+	hs.RekeyFromSqueeze(PostQuantumProtocolName)
+	if n, err = hs.writePQClientAck(buf); err != nil {
+		return "ack-failed"
+	}
+	sock.WriteMsgUDP(buf[:n], nil, vSrvAddr)
+	sock.SetReadDeadline(time.Now().Add(time.Second))
+	n, _, _, _, err = sock.ReadMsgUDP(buf, nil)
+	if err != nil {
+		return "no-server-auth"
+	}
+	if _, err := hs.readPQServerAuth(buf[:n]); err != nil {
+		return "bad-server-auth"
+	}
+	blob, _ := c10CertBlob(j)
+	b := buf
+	b[0], b[1], b[2], b[3] = byte(MessageTypeClientAuth), 0, byte(len(blob)>>8), byte(len(blob))
+	hs.duplex.Absorb(b[:HeaderLen])
+	b = b[HeaderLen:]
+	copy(b, hs.sessionID[:])
+	hs.duplex.Absorb(hs.sessionID[:])
+	b = b[SessionIDLen:]
+	hs.duplex.Encrypt(b[:len(blob)], blob)
+	b = b[len(blob):]
+	hs.duplex.Squeeze(b[:MacLen])
+	b = b[MacLen:]
+	dhSe, err := hs.dh.static.Agree(hs.dh.remoteEphemeral[:])
+	if err != nil {
+		return "agree-failed"
+	}
+	hs.duplex.Absorb(dhSe)
+	hs.duplex.Squeeze(b[:MacLen])
+	sock.WriteMsgUDP(buf[:HeaderLen+SessionIDLen+len(blob)+2*MacLen], nil, vSrvAddr)
+	c10Wait()
+	r.mu.Lock()
+	_, accepted := r.handles[hs.sessionID]
+	r.mu.Unlock()
+	if accepted {
+		return "session-established"
+	}
+	return "refused"
+}
+
+// rawHid sends a hidden request, made with the PUBLIC KEM key of virtual host j.T, whose certificate field holds the blob.
+func (r *c10RT) rawHid(addr *net.UDPAddr, j c10Junk, host int) string {
+	sock := r.env.Net.Dial(addr, vSrvAddr)
+	r.socks = append(r.socks, sock)
+	hs, ok := c10NewHS()
+	if !ok {
+		return "keygen-failed"
+	}
+	hs.duplex.Absorb([]byte(PostQuantumHiddenProtocolName))
+	hs.RekeyFromSqueeze(PostQuantumHiddenProtocolName)
+	blob, _ := c10CertBlob(j)
+	buf := make([]byte, 65535)
+	b := buf
+	b[0], b[1], b[2], b[3] = byte(MessageTypeClientRequestHidden), Version, byte(len(blob)>>8), byte(len(blob))
+	hs.duplex.Absorb(b[:HeaderLen])
+	b = b[HeaderLen:]
+	pub, err := hs.kem.ephemeral.Public.MarshalBinary()
+	if err != nil {
+		return "marshal-failed"
+	}
+	copy(b, pub)
+	hs.duplex.Absorb(b[:KemKeyLen])
+	b = b[KemKeyLen:]
+	pk := c10Hosts()[host].KEM.Public
+	ct, k, err := keys.Encapsulate(rand.Reader, &pk)
+	if err != nil || len(ct) != KemCtLen {
+		return "encapsulate-failed"
+	}
+	copy(b, ct)
+	b = b[KemCtLen:]
+	hs.duplex.Absorb(k)
+	hs.duplex.Encrypt(b[:len(blob)], blob)
+	b = b[len(blob):]
+	hs.duplex.Squeeze(b[:MacLen])
+	b = b[MacLen:]
+	var ts [TimestampLen]byte
+	now := uint64(time.Now().Unix())
+	for i := range ts {
+		ts[i] = byte(now >> (56 - 8*i))
+	}
+	hs.duplex.Encrypt(b[:TimestampLen], ts[:])
+	b = b[TimestampLen:]
+	hs.duplex.Squeeze(b[:MacLen])
+	total := HeaderLen + KemKeyLen + KemCtLen + len(blob) + MacLen + TimestampLen + MacLen
+	sock.WriteMsgUDP(buf[:total], nil, vSrvAddr)
+	sock.SetReadDeadline(time.Now().Add(time.Second))
+	n, _, _, _, err := sock.ReadMsgUDP(buf, nil)
+	if err != nil {
+		return "refused"
 	}
 	return "answered-with-" + c10TypeName(buf[:n])
 }
@@ -1323,7 +1754,7 @@ func c10Run(t *testing.T, rec *vlib.Recorder) func(c c10Case, v *vlib.Verdict) {
 		v.Key = r.stateTag() + "|" + c.Cfg.String() + "|" + strings.Join(cl, ",")
 		if len(c.Junk) > 0 {
 			// (the sweep's cases differ in their length range only)
-			v.Key += fmt.Sprintf("|n=%d|cut0=%d", len(c.Junk), c.Junk[0].Cut)
+			v.Key += fmt.Sprintf("|n=%d|cut0=%d|%s%d.%d.%d", len(c.Junk), c.Junk[0].Cut, c.Junk[0].F, c.Junk[0].N, c.Junk[0].B1, c.Junk[0].B2)
 		}
 	}
 }
@@ -1346,11 +1777,11 @@ var c10HotLens = []int{0, 1, 2, 3, 4, 5, 7, 8, 9, 15, 16, 17, 47, 48, 49}
 func c10GenJunk(t *rapid.T, c *c10Case, table []c10Tmpl, actors *int) c10Junk {
 	j := c10Junk{}
 	serverT := c.Target == "server"
-	kinds := []any{"rand", 20, "tmpl", 50, "hdr", 15}
-	if serverT && *actors < 4 && c.State != "closing" {
-		kinds = append(kinds, "hidreq", 4)
+	kinds := []any{"rand", 20, "tmpl", 50, "hdr", 15, "seal", 10}
+	if serverT && *actors < 5 && c.State != "closing" {
+		kinds = append(kinds, "hidreq", 4, "rawhid", 4)
 		if !c.Cfg.Hidden {
-			kinds = append(kinds, "name", 5, "rawsni", 5)
+			kinds = append(kinds, "name", 5, "rawsni", 5, "rawauth", 5)
 		}
 	}
 	j.K = c10W[string](t, "kind", kinds...)
@@ -1381,6 +1812,15 @@ func c10GenJunk(t *rapid.T, c *c10Case, table []c10Tmpl, actors *int) c10Junk {
 		if shortOpen && j.Sid >= 2 && j.Cut < 40 {
 			j.Cut += 40
 		}
+	case "seal":
+		j.V = c10W[int](t, "type", 0x10, 9, 0x80, 6, 0x11, 1, 0x00, 1)
+		j.Sid = c10W[int](t, "sidkind", 2, 8, 1, 1)
+		if j.Sid == 2 {
+			j.Sid = liveSid()
+		}
+		j.B1 = c10W[int](t, "key", 0, 6, 1, 2, 2, 2, 3, 1, 4, 1, 5, 2, 6, 1)
+		j.B2 = c10W[int](t, "counter", 0, 3, 1, 2, 2, 4, 3, 2, 4, 1, 5, 1)
+		j.Cut = c10W[int](t, "plaintext", 0, 2, 1, 4, 16, 2, 100, 1, 1400, 1)
 	case "tmpl":
 		L := 2200
 		if lt := rapid.IntRange(0, 9).Draw(t, "livetmpl"); lt < 2 {
@@ -1395,7 +1835,37 @@ func c10GenJunk(t *rapid.T, c *c10Case, table []c10Tmpl, actors *int) c10Junk {
 			j.T = rapid.IntRange(0, len(table)-1).Draw(t, "tmpl")
 			L = len(table[j.T].Data)
 		}
-		j.F = c10W[string](t, "field", "", 5, "type", 4, "b1", 2, "b2", 1, "b3", 1, "certlen", 4, "ctr", 2)
+		j.F = c10W[string](t, "field", "", 5, "type", 4, "b1", 2, "b2", 1, "b3", 1, "certlen", 4, "ctr", 2, "fit", 4)
+		switch j.F {
+		case "fit":
+			// the message types that carry a length field, on any template
+			if serverT {
+				j.Ty = c10W[int](t, "fittype", 0, 4, 5, 3, 8, 4, 4, 1, 9, 1)
+			} else {
+				j.Ty = c10W[int](t, "fittype", 0, 4, 4, 3, 9, 3, 5, 1, 8, 1)
+			}
+			j.V = c10W[int](t, "fitmode", 0, 2, 1, 2, 2, 1)
+			if j.V == 2 {
+				// the message's own vector, a few bytes shorter / longer: the structures INSIDE the (for a live template
+				// correctly decrypted) vector end exactly at, just before or just behind its end
+				j.Ty = 0
+				j.N = c10W[int](t, "rel", -1, 3, -2, 2, -3, 1, 1, 2, 2, 1, -16, 1)
+				j.D = c10W[int](t, "fitoff", 0, 6, -1, 1, 1, 1)
+				break
+			}
+			switch c10W[int](t, "fitclass", 0, 4, 1, 2, 2, 3, 3, 1) {
+			case 0:
+				j.N = rapid.SampledFrom(c10FitBoundaries()).Draw(t, "boundary") + rapid.IntRange(-2, 2).Draw(t, "delta")
+			case 1:
+				j.N = rapid.IntRange(0, 65535).Draw(t, "n")
+			case 2:
+				j.N = rapid.IntRange(MaxTotalPacketSize-4096, 65535).Draw(t, "n")
+			default:
+				j.N = rapid.IntRange(0, 2100).Draw(t, "n")
+			}
+			j.N = max(0, min(j.N, 65535))
+			j.D = c10W[int](t, "fitoff", 0, 6, -1, 1, 1, 1, 17, 1)
+		}
 		switch j.F {
 		case "type":
 			j.V = c10W[int](t, "typeval", 1, 2, 2, 2, 3, 2, 4, 2, 5, 2, 8, 3, 9, 2, 0x10, 3, 0x80, 3, 0, 1, 0x11, 1, 0xff, 1)
@@ -1410,7 +1880,11 @@ func c10GenJunk(t *rapid.T, c *c10Case, table []c10Tmpl, actors *int) c10Junk {
 		if j.Sid == 2 {
 			j.Sid = liveSid()
 		}
-		switch c10W[int](t, "lenmode", 0, 3, 1, 5, 2, 1, 3, 1) {
+		lenmode := []any{0, 3, 1, 5, 2, 1, 3, 1}
+		if j.F == "fit" {
+			lenmode = []any{0, 8, 1, 1, 2, 1} // (a cut would undo the agreement of field and length)
+		}
+		switch c10W[int](t, "lenmode", lenmode...) {
 		case 1:
 			j.Cut = 1 + rapid.IntRange(0, L).Draw(t, "cut")
 		case 2:
@@ -1428,6 +1902,27 @@ func c10GenJunk(t *rapid.T, c *c10Case, table []c10Tmpl, actors *int) c10Junk {
 		j.V = rapid.IntRange(0, 2).Draw(t, "host")
 		if c10Open(c10SigHidLoop) && c.Cfg.Hidden && c.Cfg.Certs >= 2 {
 			j.V = 0
+		}
+		*actors++
+	case "rawauth", "rawhid":
+		switch c10W[int](t, "bloblen", 0, 3, 1, 3, 2, 2, 3, 1) {
+		case 0:
+			j.Cut = -1
+		case 1:
+			j.Cut = rapid.IntRange(0, 16).Draw(t, "len")
+		case 2:
+			j.Cut = rapid.IntRange(17, 700).Draw(t, "len")
+		default:
+			j.Cut = rapid.IntRange(701, 63000).Draw(t, "len")
+		}
+		j.V = c10W[int](t, "first", 0, 4, 1, 1, 2, 2, 3, 2, 4, 1, 5, 1, 6, 1, 7, 1, 8, 1)
+		j.B1 = c10W[int](t, "second", 0, 4, 1, 1, 2, 2, 3, 2, 4, 1, 5, 1, 6, 1)
+		j.B2 = rapid.IntRange(0, 2).Draw(t, "content")
+		if j.K == "rawhid" {
+			j.T = rapid.IntRange(0, 2).Draw(t, "host")
+			if c10Open(c10SigHidLoop) && c.Cfg.Hidden && c.Cfg.Certs >= 2 {
+				j.T = 0
+			}
 		}
 		*actors++
 	case "rawsni":
@@ -1599,10 +2094,127 @@ func TestVerifC10Sweep(t *testing.T) {
 			}
 		}
 	}
+	// second and third enumeration, against the same scenarios: (a) every message type with a length field, the field
+	// and the real length set CONSISTENTLY to every boundary value (as the value of the field and as the length of the
+	// whole datagram), exact and off by one, on the table's message of that type and on this case's own most recent
+	// message of that type; (b) transport / control datagrams sealed under every guessable key, for the pending or
+	// first live session id, a second live one and an unknown one.
+	emit := func(sc c10SweepScn, junk []c10Junk) bool {
+		for lo := 0; lo < len(junk); lo += sc.Chunk {
+			idx++
+			if !rec.Mine(idx) {
+				continue
+			}
+			c := c10Case{Target: sc.Target, Cfg: sc.Cfg, State: sc.State, Release: lo/sc.Chunk%2 == 0}
+			if sc.State == "est" {
+				c.Sessions = 2
+			}
+			c.Junk = append(c.Junk, junk[lo:min(lo+sc.Chunk, len(junk))]...)
+			datagrams += len(c.Junk)
+			rec.Persist(c)
+			if !vlib.Each(t, rec, c, run) {
+				return false
+			}
+		}
+		return true
+	}
+	tmplOf := map[int]int{}
+	for ti, tm := range table {
+		if _, ok := tmplOf[int(tm.Data[0])]; !ok {
+			tmplOf[int(tm.Data[0])] = ti
+		}
+	}
+	for _, sc := range c10SweepScenarios() {
+		reduced := !sc.Full && !vlib.Thorough()
+		var fit, seal []c10Junk
+		fitTypes, offs := []int{4, 5, 8, 9}, []int{0, -1, 1}
+		if reduced {
+			fitTypes, offs = []int{4, 9}, []int{0}
+		}
+		k := 0
+		for _, ty := range fitTypes {
+			for _, src := range []int{tmplOf[ty], 300 + ty} {
+				for mode := 0; mode <= 1; mode++ {
+					for _, n := range c10FitBoundaries() {
+						for _, d := range offs {
+							k++
+							fit = append(fit, c10Junk{K: "tmpl", T: src, F: "fit", Ty: ty, V: mode, N: n, D: d, Src: k % 2, Seed: uint64(1000 + k)})
+						}
+					}
+				}
+			}
+		}
+		// the message's own vector 1 or 2 bytes shorter / longer, consistently resized and with the length field alone:
+		// what the vector CONTAINS then ends exactly at, before or behind its end. Sent from the peer's own address. A
+		// handshaking client gets a fresh handshake per datagram anyway; a server with a handshake in progress reads only
+		// the FIRST such message with the right keys, so each one gets a case of its own there.
+		var rel []c10Junk
+		for _, ty := range fitTypes {
+			for _, src := range []int{tmplOf[ty], 300 + ty} {
+				for _, n := range []int{-1, -2, 1, 2} {
+					k++
+					rel = append(rel, c10Junk{K: "tmpl", T: src, F: "fit", V: 2, N: n, Seed: uint64(1000 + k)},
+						c10Junk{K: "tmpl", T: src, F: "fit", V: 2, N: n, D: -n, Seed: uint64(1000 + k)})
+				}
+			}
+		}
+		if sc.Target == "server" && strings.HasPrefix(sc.State, "mid-") {
+			one := sc
+			one.Chunk = 1
+			if !emit(one, rel) {
+				return
+			}
+		} else {
+			fit = append(fit, rel...)
+		}
+		types, keysK, ctrs, sids, cuts := []int{0x10, 0x80, 0x11}, []int{0, 1, 2, 3, 4, 5}, []int{0, 2, 5}, []int{2, 3, 1}, []int{1, 16}
+		if reduced {
+			types, keysK, ctrs, sids, cuts = []int{0x10, 0x80}, []int{0, 2}, []int{0, 2}, []int{2}, []int{1}
+		}
+		for _, ty := range types {
+			for _, key := range keysK {
+				for _, ctr := range ctrs {
+					for _, sid := range sids {
+						for _, cut := range cuts {
+							k++
+							seal = append(seal, c10Junk{K: "seal", V: ty, B1: key, B2: ctr, Sid: sid, Cut: cut, Src: k % 2, Seed: uint64(2000 + k)})
+						}
+					}
+				}
+			}
+		}
+		// (c) peers that run the unauthenticated part of the key exchange and choose the plaintext of the certificate
+		// field: every position of the first and of the second length prefix relative to the room that is left, on
+		// genuine and on random contents, natural / 8 / 300 bytes
+		var act []c10Junk
+		if sc.Target == "server" {
+			kindsA := []string{"rawhid"}
+			if !sc.Cfg.Hidden {
+				kindsA = append(kindsA, "rawauth")
+			}
+			for _, kd := range kindsA {
+				for _, content := range []int{0, 1} {
+					for _, B := range []int{-1, 8, 300} {
+						for first := 0; first < len(c10BlobFirst); first++ {
+							k++
+							act = append(act, c10Junk{K: kd, Cut: B, V: first, B2: content, T: k % max(1, sc.Cfg.Certs), Seed: uint64(3000 + k)})
+						}
+						for second := 1; second < len(c10BlobSecond); second++ {
+							k++
+							act = append(act, c10Junk{K: kd, Cut: B, B1: second, B2: content, T: k % max(1, sc.Cfg.Certs), Seed: uint64(3000 + k)})
+						}
+					}
+				}
+			}
+		}
+		if !emit(sc, fit) || !emit(sc, seal) || !emit(sc, act) {
+			return
+		}
+	}
 	// complete only if nothing of the enumerated space had to be skipped because of an open finding
 	rec.SetExhaustive(complete && c10ExcludedTotal == 0)
 	rec.AddExtra("datagrams", datagrams)
-	rec.Extra("enumerated", "every message of an honest discoverable and hidden run (10 messages), every truncation length 0..len, first byte kept and replaced by each other valid type byte, bytes 4..8 kept and replaced by a live session id, against 7 server state/configuration pairs and 5 client states (quick tier: handshaking clients get the server-sent messages with the types a client reads, other messages up to 64 bytes)")
+	rec.Extra("enumerated", "every message of an honest discoverable and hidden run (10 messages), every truncation length 0..len, first byte kept and replaced by each other valid type byte, bytes 4..8 kept and replaced by a live session id, against 7 server state/configuration pairs and 5 client states (quick tier: handshaking clients get the server-sent messages with the types a client reads, other messages up to 64 bytes); every message type with a length field x field and real length set consistently to every boundary value (around 0, 2^8, 2^14, 2^15, MaxPlaintextSize, MaxTotalPacketSize, 65507, 65535; as field value and as datagram length; exact and off by one) and to the message's own value -2..+2; transport / control / unknown-type datagrams sealed with the real sealing code under each of 6 guessable keys x 3 counters x pending-or-live / second live / unknown session id; ClientAuth (discoverable) and hidden requests (every configuration) by peers that run the unauthenticated part of the key exchange and put a chosen plaintext into the certificate field: first / second vector length prefix at every position relative to the room left (exact, 1..3 past, 0, 0xffff) x genuine / random contents x natural / 8 / 300 bytes")
 }
 
 // ---------------------------------------------------------------------------
